@@ -28,16 +28,18 @@ type tierBounds struct {
 	ADepth, AMaxPods, ACap int
 	AKinds                 []int
 	BDepth3, BDepth4, BCap int
+	BPalette               []int
+	BBothOrders            bool
 	GridChunks, CChunks    int
 }
 
 func boundsFor(tier string) tierBounds {
 	if tier == "quick" {
 		return tierBounds{ADepth: 5, AMaxPods: 2, ACap: 400000, AKinds: []int{0, 2, 4, 5},
-			BDepth3: 5, BDepth4: 4, BCap: 400000, GridChunks: 14, CChunks: 14}
+			BDepth3: 4, BDepth4: 3, BCap: 400000, BPalette: []int{0, 1, 2}, GridChunks: 14, CChunks: 14}
 	}
 	return tierBounds{ADepth: 6, AMaxPods: 3, ACap: 1500000, AKinds: []int{0, 1, 2, 3, 4, 5},
-		BDepth3: 6, BDepth4: 5, BCap: 1500000, GridChunks: 28, CChunks: 28}
+		BDepth3: 5, BDepth4: 4, BCap: 1500000, BPalette: []int{0, 1, 2, 3}, BBothOrders: true, GridChunks: 28, CChunks: 28}
 }
 
 func units(tier string) []unit {
@@ -82,7 +84,7 @@ func units(tier string) []unit {
 			depth = tb.BDepth4
 		}
 		us = append(us, unit{"B", name, func() *unitStats {
-			return exploreB(name, init, &boundsB{MaxPGs: 2, Palette: []int{0, 1, 2, 3}, MaxLevels: 3, Depth: depth}, tb.BCap)
+			return exploreB(name, init, &boundsB{MaxPGs: 2, Palette: tb.BPalette, MaxLevels: 3, Depth: depth, BothOrders: tb.BBothOrders}, tb.BCap)
 		}})
 	}
 	// Part C
@@ -127,13 +129,13 @@ func run(tier string) int {
 	us := units(tier)
 	idx, n, isWorker := engine.WorkerShard()
 	if isWorker {
-		budget := engine.NewBudget(time.Duration(envInt("VERIF_C20_BUDGET_S", map[string]int{"quick": 100, "thorough": 1300}[tier])) * time.Second)
+		deadline = engine.NewBudget(time.Duration(envInt("VERIF_C20_BUDGET_S", map[string]int{"quick": 100, "thorough": 1300}[tier])) * time.Second)
 		// cost-balanced static assignment: unit i -> worker i%n (units are listed part by part)
 		for i, u := range us {
 			if i%n != idx {
 				continue
 			}
-			if budget.Exceeded() {
+			if deadline.Exceeded() {
 				engine.Emit(&unitStats{Part: u.Part, Unit: u.Name, CapHit: true, Extra: map[string]int{"units_skipped_by_deadline": 1}})
 				continue
 			}
@@ -164,6 +166,9 @@ func run(tier string) int {
 		}
 		if st.HarnessError != "" && harnessErr == "" {
 			harnessErr = st.Part + " " + st.Unit + ": " + st.HarnessError
+		}
+		if os.Getenv("VERIF_C20_DEBUG") != "" {
+			fmt.Fprintf(os.Stderr, "unit %-8s %-40s states=%d trans=%d real=%d cap=%v\n", st.Part, st.Unit, st.States, st.Transitions, st.RealTransitions, st.CapHit)
 		}
 		a := parts[st.Part]
 		if a == nil {
